@@ -110,6 +110,10 @@ func isNaN(o object.PanObject) bool {
 
 // check evaluates one law; it returns "" if it holds, else (signature, detail).
 func (w *world) check(c Case) (sig, detail string) {
+	return interp.Guard(func() (string, string) { return w.checkRaw(c) }, func() { vt.Discard("an evaluation of this case ran out of its budget (inconclusive)") })
+}
+
+func (w *world) checkRaw(c Case) (sig, detail string) {
 	vs := c.Vals
 	x, y := vs[0].o, vs[0].o
 	if len(vs) > 1 {
